@@ -138,9 +138,14 @@ def read_seq(draw, defs, other_defs=()):
 
 @st.composite
 def qualities(draw, n, base=33):
-    mode = draw(st.integers(0, 4))
+    mode = draw(st.integers(0, 5))
     if mode == 4:
         return chr(base) * n  # phred 0: expected errors exactly 1.0 per base
+    if mode == 5:
+        # the whole printable range (long-read instruments report Q60-Q93), mixed with low values
+        top = 126 - base
+        vals = [v for v in (0, 3, 20, 40, 41, 60, 64, 66, 80, 93) if v <= top]
+        return draw(st.text(alphabet=[chr(base + x) for x in vals], min_size=n, max_size=n))
     if mode == 0:
         return chr(base + 40) * n
     if mode == 1:
